@@ -13,16 +13,25 @@
 //	              files on disk (n) and the number of nodes that recorded an ExtractPath (w)
 //	dirsave img   bytes of extract + save-from-directory (two Assemble passes, as utk does)
 //	saveproj img  bytes of extract + ParseDir + ONE Assemble pass (model: assemble of json_project)
+//	diredit img kind k value   bytes of extract + the k-th field of that kind replaced in summary.json +
+//	              save-from-directory (model: Model/ExtractEdit.v dir_edit_save)
 //
 // P ops (implementation only):
 //
 //	p_roundtrip img id|x      dir round trip == direct save (== img when "id": canonical, nothing
-//	                          compressed)
+//	                          compressed); the same again after the directory was moved and the image
+//	                          file deleted
 //	p_paths img               every recorded ExtractPath is distinct and is a file on disk, and vice
 //	                          versa (covers FlashImage / FlashDescriptor / ME / raw regions)
 //	p_edit img kind k value   edit the k-th candidate field of summary.json (kind guid|ui|version|
 //	                          depex), save, reparse: exactly that field differs from the unedited
-//	                          round trip, and the image validates
+//	                          round trip, and the image validates (sizes, checksums, block maps); the
+//	                          bytes equal the direct save of the parsed image with that field replaced
+//	                          (so "out of space" is only accepted when that fails too); a GUID edit in
+//	                          a top-level volume changes only the GUID and the header checksum byte;
+//	                          summary.json offers exactly the editable fields the tree has
+//
+// C07_STATS=1 c07 gen ... prints the input-diversity report of stats.go on stderr.
 package main
 
 import (
@@ -41,6 +50,7 @@ import (
 	"github.com/linuxboot/fiano/pkg/utk"
 	"github.com/linuxboot/fiano/pkg/visitors"
 	. "verifharness/common"
+	"verifharness/flashops"
 	"verifharness/nvargen"
 	"verifharness/uefigen"
 	"verifharness/uefiops"
@@ -430,7 +440,20 @@ func pRoundTrip(args []string) string {
 	if args[1] == "id" && !bytes.Equal(a, img) {
 		return "FAIL dir-vs-input " + firstDiff(a, img)
 	}
-	// a second extraction of the result gives the same directory listing (paths are a function of the image)
+	// summary.json plus the extracted binaries are the complete description: the directory can be moved
+	// (and the original image removed) and still gives the same image
+	moved := filepath.Join(w.tmp, "y")
+	if err := os.Rename(w.dir, moved); err != nil {
+		return "harness-error " + err.Error()
+	}
+	_ = os.Remove(w.img)
+	out2 := filepath.Join(w.tmp, "out2.rom")
+	if err := run(moved, "save", out2); err != nil {
+		return "FAIL moved-directory dir-save-error " + oneLine(err.Error())
+	}
+	if c, _ := os.ReadFile(out2); !bytes.Equal(c, a) {
+		return "FAIL moved-directory " + firstDiff(c, a)
+	}
 	return "ok"
 }
 
@@ -462,6 +485,19 @@ type rec struct{ key, val string }
 func deep(f uefi.Firmware, at string, out *[]rec) {
 	add := func(k, v string) { *out = append(*out, rec{at + "." + k, v}) }
 	switch n := f.(type) {
+	case *uefi.FlashImage:
+		add("kind", "flash")
+		add("size", N(n.FlashSize))
+		add("ifd", H(n.IFD.Buf()))
+		for i, r := range n.Regions {
+			deep(r.Value, fmt.Sprintf("%s/r%d", at, i), out)
+		}
+	case *uefi.MERegion:
+		add("kind", "me")
+		add("body", N(uint64(fnv32(n.Buf())))+":"+N(uint64(len(n.Buf()))))
+	case *uefi.RawRegion:
+		add("kind", "raw "+n.Type().String())
+		add("body", N(uint64(fnv32(n.Buf())))+":"+N(uint64(len(n.Buf()))))
 	case *uefi.BIOSRegion:
 		add("kind", "region")
 		add("len", N(n.Length))
@@ -562,6 +598,13 @@ func invalid(f uefi.Firmware, at string) []string {
 	var out []string
 	add := func(m string) { out = append(out, at+": "+m) }
 	switch n := f.(type) {
+	case *uefi.FlashImage:
+		if uint64(len(n.Buf())) != n.FlashSize {
+			add("flash size")
+		}
+		for i, r := range n.Regions {
+			out = append(out, invalid(r.Value, fmt.Sprintf("%s/r%d", at, i))...)
+		}
 	case *uefi.BIOSRegion:
 		if uint64(len(n.Buf())) != n.Length {
 			add("region length")
@@ -573,6 +616,14 @@ func invalid(f uefi.Firmware, at string) []string {
 		b := n.Buf()
 		if uint64(len(b)) != n.Length {
 			add("volume length field")
+		}
+		// the block map adds up to the volume length (PI spec: FvLength is the sum of the block runs)
+		var blocks uint64
+		for _, bl := range n.Blocks {
+			blocks += uint64(bl.Count) * uint64(bl.Size)
+		}
+		if blocks != n.Length {
+			add("volume block map")
 		}
 		if int(n.HeaderLen) <= len(b) && n.HeaderLen%2 == 0 {
 			var sum uint16
@@ -694,7 +745,7 @@ func candidates(v interface{}, kind string) []jsonObj {
 			}
 			// document order: Go marshals struct fields in declaration order, but the generic map has
 			// lost it; children live under these keys only
-			for _, k := range []string{"FirmwareElement", "Elements", "Value", "Files", "Sections", "Encapsulated"} {
+			for _, k := range []string{"FirmwareElement", "Regions", "Elements", "Value", "Files", "Sections", "Encapsulated"} {
 				if c, ok := x[k]; ok {
 					walk(c)
 				}
@@ -705,10 +756,125 @@ func candidates(v interface{}, kind string) []jsonObj {
 	return out
 }
 
+// guidJSON is the JSON form of a GUID as a person would type it: the text guid.Parse accepts is not
+// case sensitive, so every other value (by its last byte) is written in lower case.
 func guidJSON(g []byte) jsonObj {
 	var gg guid.GUID
 	copy(gg[:], g)
+	if len(g) == 16 && g[15]&1 == 1 {
+		return jsonObj{"GUID": strings.ToLower(gg.String())}
+	}
 	return jsonObj{"GUID": gg.String()}
+}
+
+// cand is a node of a parsed tree that an edit applies to, and where it lives: "top" (a file of a
+// volume of the BIOS region), "nested" (inside a volume nested through FV-image sections only),
+// "compressed" (below a compressed section).
+type cand struct {
+	file  *uefi.File
+	sec   *uefi.Section
+	where string
+}
+
+// treeCands lists the nodes of a parsed tree that an edit of the given kind applies to, in the order
+// of summary.json (preorder), i.e. the order of candidates() on the JSON document.
+func treeCands(root uefi.Firmware, kind string) []cand {
+	var out []cand
+	var walk func(f uefi.Firmware, where string, file *uefi.File)
+	walk = func(f uefi.Firmware, where string, file *uefi.File) {
+		switch n := f.(type) {
+		case *uefi.FlashImage:
+			for _, r := range n.Regions {
+				walk(r.Value, where, nil)
+			}
+		case *uefi.BIOSRegion:
+			for _, e := range n.Elements {
+				walk(e.Value, where, nil)
+			}
+		case *uefi.FirmwareVolume:
+			for _, x := range n.Files {
+				walk(x, where, x)
+			}
+		case *uefi.File:
+			if kind == "guid" && len(n.Sections) > 0 {
+				out = append(out, cand{n, nil, where})
+			}
+			for _, x := range n.Sections {
+				walk(x, where, n)
+			}
+		case *uefi.Section:
+			t := n.Header.Type
+			switch {
+			case kind == "ui" && t == uefi.SectionTypeUserInterface, kind == "version" && t == uefi.SectionTypeVersion,
+				kind == "depex" && (t == uefi.SectionTypeDXEDepEx || t == uefi.SectionTypePEIDepEx || t == uefi.SectionMMDepEx):
+				out = append(out, cand{file, n, where})
+			}
+			w := where
+			if t == uefi.SectionTypeGUIDDefined && len(n.Encapsulated) > 0 {
+				w = "compressed"
+			}
+			for _, e := range n.Encapsulated {
+				if _, ok := e.Value.(*uefi.FirmwareVolume); ok && w == "top" {
+					walk(e.Value, "nested", file)
+				} else {
+					walk(e.Value, w, file)
+				}
+			}
+		}
+	}
+	walk(root, "top", nil)
+	return out
+}
+
+// applyTreeEdit replaces the field on a parsed tree (k modulo the number of candidates unless exact).
+func applyTreeEdit(root uefi.Firmware, kind string, k int, val []byte, exact bool) (cand, int) {
+	cs := treeCands(root, kind)
+	if len(cs) == 0 || (exact && k >= len(cs)) {
+		return cand{}, len(cs)
+	}
+	c := cs[k%len(cs)]
+	switch kind {
+	case "guid":
+		copy(c.file.Header.GUID[:], val)
+	case "ui":
+		c.sec.Name = string(val)
+	case "version":
+		c.sec.Version = string(val)
+	case "depex":
+		var ops []uefi.DepExOp
+		for i := 0; i < len(val); {
+			op := uefi.DepExOp{OpCode: uefi.DepExOpCodes[val[i]]}
+			i++
+			if val[i-1] <= 2 && i+16 <= len(val) {
+				var gg guid.GUID
+				copy(gg[:], val[i:i+16])
+				op.GUID = &gg
+				i += 16
+			}
+			ops = append(ops, op)
+		}
+		c.sec.DepEx = ops
+	}
+	return c, len(cs)
+}
+
+// treeEdit makes the same edit on a tree parsed from the image and assembles it once: the direct save of
+// the image with that field changed (as p_roundtrip compares the directory route with the direct save of
+// the image).
+func treeEdit(img []byte, kind string, k int, val []byte) ([]byte, cand, int, error) {
+	reset()
+	root, err := uefi.Parse(append([]byte{}, img...))
+	if err != nil {
+		return nil, cand{}, 0, err
+	}
+	c, n := applyTreeEdit(root, kind, k, val, false)
+	if n == 0 {
+		return nil, cand{}, 0, nil
+	}
+	if err := (&visitors.Assemble{}).Run(root); err != nil {
+		return nil, c, n, err
+	}
+	return append([]byte{}, root.Buf()...), c, n, nil
 }
 
 func depexJSON(b []byte) ([]interface{}, string, bool) {
@@ -749,6 +915,84 @@ func treeOf(p string) (uefi.Firmware, error) {
 	return uefi.Parse(b)
 }
 
+// editSummary replaces, in dir/summary.json, the value of the k-th field (document order) that an edit
+// of the given kind applies to; k is taken modulo the number of such fields unless exact is set (then a
+// k beyond the last field edits nothing).  It returns the number of fields, and the record name and
+// value the reparsed tree must show; problem is non-empty when the file cannot be edited.
+func editSummary(dir, kind string, k int, val []byte, exact bool) (ncands int, field, want, problem string) {
+	sj := filepath.Join(dir, "summary.json")
+	doc, err := loadJSON(sj)
+	if err != nil {
+		return 0, "", "", "FAIL summary-json-unreadable " + oneLine(err.Error())
+	}
+	cands := candidates(doc, kind)
+	ncands = len(cands)
+	if ncands == 0 || (exact && k >= ncands) {
+		return ncands, "", "", ""
+	}
+	target := cands[k%ncands]
+	switch kind {
+	case "guid":
+		if len(val) != 16 {
+			return ncands, "", "", "harness-error guid-length"
+		}
+		target["Header"].(jsonObj)["GUID"] = guidJSON(val)
+		field, want = "guid", strings.ToUpper(guidJSON(val)["GUID"].(string))
+	case "ui":
+		target["Name"] = string(val)
+		field, want = "name", H(val)
+	case "version":
+		target["Version"] = string(val)
+		field, want = "version", H(val)
+	case "depex":
+		ops, s, ok := depexJSON(val)
+		if !ok {
+			return ncands, "", "", "harness-error depex-value"
+		}
+		target["DepEx"] = ops
+		field, want = "depex", s
+	default:
+		return ncands, "", "", "harness-error kind"
+	}
+	nb, err := json.MarshalIndent(doc, "", "    ")
+	if err != nil {
+		return ncands, "", "", "harness-error " + err.Error()
+	}
+	if err := os.WriteFile(sj, nb, 0o644); err != nil {
+		return ncands, "", "", "harness-error " + err.Error()
+	}
+	return ncands, field, want, ""
+}
+
+// diredit img kind k value: bytes of extract + the edit of summary.json + save-from-directory
+// (model: Model/ExtractEdit.v dir_edit_save; k is exact: beyond the last candidate nothing is edited)
+func opDirEdit(args []string) string {
+	img := UnH(args[0])
+	if !parses(img) {
+		return "err"
+	}
+	w, err := newWork(img)
+	if err != nil {
+		return "harness-error " + err.Error()
+	}
+	defer w.close()
+	if err := run(w.img, "extract", w.dir); err != nil {
+		return "err-extract"
+	}
+	if _, _, _, problem := editSummary(w.dir, args[1], int(UnN(args[2])), UnH(args[3]), true); problem != "" {
+		return problem
+	}
+	out := filepath.Join(w.tmp, "out.rom")
+	if err := run(w.dir, "save", out); err != nil {
+		return "err-asm"
+	}
+	b, err := os.ReadFile(out)
+	if err != nil {
+		return "harness-error " + err.Error()
+	}
+	return "ok " + H(b)
+}
+
 func pEdit(args []string) string {
 	img := UnH(args[0])
 	kind := args[1]
@@ -769,53 +1013,40 @@ func pEdit(args []string) string {
 	if err := run(w.dir, "save", base); err != nil {
 		return "skip" // the unedited round trip is p_roundtrip's business
 	}
-	sj := filepath.Join(w.dir, "summary.json")
-	doc, err := loadJSON(sj)
-	if err != nil {
-		return "FAIL summary-json-unreadable " + oneLine(err.Error())
+	// the same edit made on the parsed tree (the tool's own notion of "the image with that field changed")
+	memImg, tc, ntree, memErr := treeEdit(img, kind, k, val)
+	ncands, field, want, problem := editSummary(w.dir, kind, k, val, false)
+	if problem != "" {
+		return problem
 	}
-	cands := candidates(doc, kind)
-	if len(cands) == 0 {
+	if ncands != ntree && !(memErr != nil && ntree == 0) {
+		// a field the tree has is not an editable field of summary.json (or the other way round)
+		return fmt.Sprintf("FAIL summary-json-editable-fields json=%d tree=%d (edit %s)", ncands, ntree, kind)
+	}
+	if ncands == 0 {
 		return "skip"
-	}
-	target := cands[k%len(cands)]
-	var field, want string
-	switch kind {
-	case "guid":
-		if len(val) != 16 {
-			return "harness-error guid-length"
-		}
-		target["Header"].(jsonObj)["GUID"] = guidJSON(val)
-		field, want = "guid", guidJSON(val)["GUID"].(string)
-	case "ui":
-		target["Name"] = string(val)
-		field, want = "name", H(val)
-	case "version":
-		target["Version"] = string(val)
-		field, want = "version", H(val)
-	case "depex":
-		ops, s, ok := depexJSON(val)
-		if !ok {
-			return "harness-error depex-value"
-		}
-		target["DepEx"] = ops
-		field, want = "depex", s
-	default:
-		return "harness-error kind"
-	}
-	nb, err := json.MarshalIndent(doc, "", "    ")
-	if err != nil {
-		return "harness-error " + err.Error()
-	}
-	if err := os.WriteFile(sj, nb, 0o644); err != nil {
-		return "harness-error " + err.Error()
 	}
 	out := filepath.Join(w.tmp, "edited.rom")
 	if err := run(w.dir, "save", out); err != nil {
 		if strings.Contains(err.Error(), "out of space") {
+			if memErr == nil && memImg != nil {
+				// the edit fits when it is made on the parsed tree: the directory lost something
+				return "FAIL directory-route-refuses-edit-that-fits (edit " + kind + " in " + tc.where + ") " + oneLine(err.Error())
+			}
 			return "skip" // the edit does not fit the (non-resizable) volume
 		}
 		return "FAIL save-after-edit " + oneLine(err.Error())
+	}
+	edited, _ := os.ReadFile(out)
+	if memErr == nil && memImg != nil && !bytes.Equal(edited, memImg) {
+		return "FAIL json-edit-vs-tree-edit (edit " + kind + " in " + tc.where + ") " + firstDiff(edited, memImg)
+	}
+	if kind == "guid" && tc.file != nil && tc.where == "top" {
+		// byte level: exactly the 16 GUID bytes and the header checksum byte after them differ
+		b0, _ := os.ReadFile(base)
+		if msg := guidBytesOnly(b0, edited, val); msg != "" {
+			return "FAIL " + msg
+		}
 	}
 	t0, err := treeOf(base)
 	if err != nil {
@@ -896,6 +1127,37 @@ func pEdit(args []string) string {
 	return "ok"
 }
 
+// guidBytesOnly: the images differ only inside one 17-byte window that starts with the new GUID in the
+// edited image (file GUID + IntegrityCheck.Header).  Only for files of top-level volumes, where no
+// enclosing file's body checksum follows the change.
+func guidBytesOnly(base, edited, g []byte) string {
+	if len(base) != len(edited) {
+		return fmt.Sprintf("guid-edit-changes-image-size %x vs %x", len(base), len(edited))
+	}
+	lo, hi := -1, -1
+	for i := range base {
+		if base[i] != edited[i] {
+			if lo < 0 {
+				lo = i
+			}
+			hi = i
+		}
+	}
+	if lo < 0 {
+		return "" // same GUID as before
+	}
+	if hi-lo > 16 {
+		return fmt.Sprintf("guid-edit-changes-bytes-outside-guid-and-header-checksum %x..%x", lo, hi)
+	}
+	// the window [o, o+17) with the new GUID at o covers every changed byte
+	for o := hi - 16; o <= lo; o++ {
+		if o >= 0 && o+16 <= len(edited) && bytes.Equal(edited[o:o+16], g) {
+			return ""
+		}
+	}
+	return fmt.Sprintf("guid-edit-changes-bytes-outside-guid-and-header-checksum %x..%x (new GUID not found there)", lo, hi)
+}
+
 // ---------- codec tables for the model ----------
 
 func kindOfGUID(g guid.GUID) int {
@@ -947,7 +1209,11 @@ func join4(kids []*uefi.TypedFirmware) []byte {
 
 // emitTables runs Parse and two Assemble passes in the generator process and emits the codec pairs the
 // model needs for the same steps.
-func emitTables(emit Emit, img []byte) {
+func emitTables(emit Emit, img []byte) { emitTablesEdit(emit, img, nil) }
+
+// emitTablesEdit: as emitTables, with a field of the parsed tree replaced before the Assemble passes, so
+// that the table holds what the real encoders make of the edited content.
+func emitTablesEdit(emit Emit, img []byte, mut func(uefi.Firmware)) {
 	reset()
 	root, err := uefi.Parse(append([]byte{}, img...))
 	if err != nil {
@@ -981,6 +1247,9 @@ func emitTables(emit Emit, img []byte) {
 		}
 		put("dec", k, H(payload), o)
 	})
+	if mut != nil {
+		mut(root)
+	}
 	for pass := 0; pass < 2; pass++ {
 		if err := (&visitors.Assemble{}).Run(root); err != nil {
 			return
@@ -1073,47 +1342,138 @@ func genNvarImage(r *Rng) []byte {
 	return img
 }
 
-// countSections parses img in the generator process and counts the sections each edit kind applies to.
+// countSections parses img in the generator process and counts the nodes each edit kind applies to
+// (flash images included).
 func countSections(img []byte) (files, ui, version, depex int) {
 	reset()
 	root, err := uefi.Parse(append([]byte{}, img...))
 	if err != nil {
 		return
 	}
-	var walk func(f uefi.Firmware)
-	walk = func(f uefi.Firmware) {
-		switch n := f.(type) {
-		case *uefi.BIOSRegion:
-			for _, e := range n.Elements {
-				walk(e.Value)
-			}
-		case *uefi.FirmwareVolume:
-			for _, x := range n.Files {
-				walk(x)
-			}
-		case *uefi.File:
-			if len(n.Sections) > 0 {
-				files++
-			}
-			for _, x := range n.Sections {
-				walk(x)
-			}
-		case *uefi.Section:
-			switch n.Header.Type {
-			case uefi.SectionTypeUserInterface:
-				ui++
-			case uefi.SectionTypeVersion:
-				version++
-			case uefi.SectionTypeDXEDepEx, uefi.SectionTypePEIDepEx, uefi.SectionMMDepEx:
-				depex++
-			}
-			for _, e := range n.Encapsulated {
-				walk(e.Value)
+	return len(treeCands(root, "guid")), len(treeCands(root, "ui")), len(treeCands(root, "version")), len(treeCands(root, "depex"))
+}
+
+// emitEdits emits up to maxEdits single-field edits of summary.json, on the fields the image has.
+func emitEdits(rr *Rng, img []byte, maxEdits int, emit Emit) {
+	emitEditsM(rr, img, maxEdits, emit, false)
+}
+
+// emitEditsM: with modelled set every edit also goes to the model (C op diredit), with the codec table
+// entries of the edited content.
+func emitEditsM(rr *Rng, img []byte, maxEdits int, emit Emit, modelled bool) {
+	nf, nu, nv, nd := countSections(img)
+	type ed struct {
+		kind string
+		n    int
+		val  []byte
+	}
+	var eds []ed
+	if nf > 0 {
+		eds = append(eds, ed{"guid", nf, rr.Bytes(16)})
+	}
+	if nu > 0 {
+		eds = append(eds, ed{"ui", nu, genText(rr)})
+	}
+	if nv > 0 {
+		eds = append(eds, ed{"version", nv, genText(rr)})
+	}
+	if nd > 0 {
+		eds = append(eds, ed{"depex", nd, genDepexBytes(rr)})
+	}
+	for k := 0; k < maxEdits && len(eds) > 0; k++ {
+		i := rr.Intn(len(eds))
+		e := eds[i]
+		eds = append(eds[:i], eds[i+1:]...)
+		ci := rr.Intn(e.n)
+		emit("P", "p_edit", H(img), e.kind, N(uint64(ci)), H(e.val))
+		if modelled && (k == 0 || (maxEdits > 2 && k == 1)) {
+			// quick tier: the first edit of every image also goes to the model; thorough tier: the first two
+			emitDirEdit(emit, img, e.kind, ci, e.val)
+		}
+	}
+}
+
+func emitDirEdit(emit Emit, img []byte, kind string, k int, val []byte) {
+	emitTablesEdit(emit, img, func(root uefi.Firmware) { applyTreeEdit(root, kind, k, val, true) })
+	emit("C", "diredit", H(img), kind, N(uint64(k)), H(val))
+}
+
+// longText / longDepex: values that make the edited section grow by 60..200 bytes, more than the slack a
+// nested volume usually has, so that the volume must be resized (only nested volumes can be).
+func longText(r *Rng) []byte {
+	var sb strings.Builder
+	for i, n := 0, r.Range(30, 90); i < n; i++ {
+		if r.Chance(1, 8) {
+			sb.WriteRune(rune(0x100 + r.Intn(0x400)))
+		} else {
+			sb.WriteByte(byte('a' + r.Intn(26)))
+		}
+	}
+	return []byte(sb.String())
+}
+
+func longDepex(r *Rng) []byte {
+	var b []byte
+	for i, n := 0, r.Range(4, 9); i < n; i++ {
+		b = append(b, byte(r.Pick(0, 1, 2)))
+		b = append(b, r.Bytes(16)...)
+		b = append(b, byte(r.Pick(3, 4, 5, 6, 7, 9)))
+	}
+	return append(b, 8)
+}
+
+// emitNestedEdits: edits that land inside nested volumes (plainly nested or below a compressed section)
+// and make their section grow a lot; the generator finds the candidates on the parsed tree.
+func emitNestedEdits(rr *Rng, img []byte, maxEdits int, emit Emit) int {
+	reset()
+	root, err := uefi.Parse(append([]byte{}, img...))
+	if err != nil {
+		return 0
+	}
+	type pick struct {
+		kind string
+		k    int
+	}
+	var ps []pick
+	for _, kind := range []string{"ui", "version", "depex"} {
+		for k, c := range treeCands(root, kind) {
+			if c.where != "top" {
+				ps = append(ps, pick{kind, k})
 			}
 		}
 	}
-	walk(root)
-	return
+	n := 0
+	for ; n < maxEdits && len(ps) > 0; n++ {
+		i := rr.Intn(len(ps))
+		p := ps[i]
+		ps = append(ps[:i], ps[i+1:]...)
+		val := longText(rr)
+		if p.kind == "depex" {
+			val = longDepex(rr)
+		}
+		emit("P", "p_edit", H(img), p.kind, N(uint64(p.k)), H(val))
+		if len(img) <= 12000 {
+			emitDirEdit(emit, img, p.kind, p.k, val)
+		}
+	}
+	return n
+}
+
+// nonASCIIMENames overwrites the names of the ME partition table entries of a generated flash image
+// (if it has a table) with bytes that are not valid UTF-8: the table is part of summary.json.
+func nonASCIIMENames(r *Rng, img []byte) {
+	i := bytes.Index(img, []byte("$FPT"))
+	if i < 0 || i+32 > len(img) {
+		return
+	}
+	n := int(img[i+4]) | int(img[i+5])<<8
+	for e := 0; e < n && e < 16; e++ {
+		o := i + 32 + 32*e
+		if o+4 > len(img) {
+			return
+		}
+		copy(img[o:], [][]byte{{0xC3, 0x28, 0xFF, 0x80}, {0xE9, 'B', 0, 0}, {0x80, 0x81, 0xFE, 0xFF}, {'M', 0xB5, 'P', 0}}[r.Intn(4)])
+	}
 }
 
 // genFlashImage builds an Intel flash image: descriptor block (signature at offset 16, descriptor map
@@ -1303,6 +1663,32 @@ func gen(r *Rng, tier string, emit Emit) {
 		emitTables(emit, img)
 		emit("C", "xpaths", H(img))
 		emit("C", "dirsave", H(img))
+		if i%2 == 0 {
+			emitEdits(r.Fork(uint64(2500000+i)), img, 1, emit)
+		}
+	}
+	// the flash grammar of the C01 check (harness/flashops): signature at 0 or 16, a random descriptor map,
+	// region and master sections at varying bases, NumberOfRegions zero or not, ME regions with and without
+	// a partition table (entry names that are not valid UTF-8), raw regions in any of the slots 2..14
+	for i := 0; i < nflash; i++ {
+		rr := r.Fork(uint64(2600000 + i))
+		img := flashops.GenImage(rr, rr.Pick(1, 1, 2))
+		if img == nil {
+			continue
+		}
+		if rr.Bool() {
+			nonASCIIMENames(rr, img)
+		}
+		emit("P", "p_roundtrip", H(img), "id")
+		emit("P", "p_paths", H(img))
+		if len(img) <= 5*4096 {
+			emitTables(emit, img)
+			emit("C", "xpaths", H(img))
+			emit("C", "dirsave", H(img))
+		}
+		if i%2 == 1 {
+			emitEdits(rr, img, 1, emit)
+		}
 	}
 	// NVAR stores (implementation oracles; the model of their directory is Model/ExtractNvar.v)
 	nnv := 40
@@ -1338,9 +1724,11 @@ func gen(r *Rng, tier string, emit Emit) {
 		var img []byte
 		canonical := "id"
 		modelled := true
+		lzma := false
 		if it%8 == 7 {
 			// compressed sections (LZMA, LZMA+x86, ZLIB) around leaves and nested volumes
 			kinds := [][]int{{1}, {2}, {3}, {1, 2, 3}}[rr.Intn(4)]
+			lzma = kinds[0] != 3
 			o := uefigen.COpts{Depth: rr.Pick(0, 1, 1, 2), Kinds: kinds, Enc: realEnc, DataOff: rr.Chance(1, 3), PlainNest: true}
 			reg, _, err := uefigen.GenCompRegion(rr.Fork(7), o)
 			if err != nil {
@@ -1389,35 +1777,55 @@ func gen(r *Rng, tier string, emit Emit) {
 			emit("C", "dirsave", H(img))
 			emit("C", "saveproj", H(img))
 		}
-		// single-field edits of summary.json, on the fields the image has
-		nf, nu, nv, nd := countSections(img)
-		type ed struct {
-			kind string
-			n    int
-			val  []byte
-		}
-		var eds []ed
-		if nf > 0 {
-			eds = append(eds, ed{"guid", nf, rr.Bytes(16)})
-		}
-		if nu > 0 {
-			eds = append(eds, ed{"ui", nu, genText(rr)})
-		}
-		if nv > 0 {
-			eds = append(eds, ed{"version", nv, genText(rr)})
-		}
-		if nd > 0 {
-			eds = append(eds, ed{"depex", nd, genDepexBytes(rr)})
-		}
 		maxEdits := 2
 		if tier == "thorough" {
 			maxEdits = 4
+		} else if lzma {
+			// quick tier: one edit on an image with LZMA sections, and every other of these also through
+			// the model (the pure-Go LZMA encoder costs ~20 ms per section and an edit case encodes every
+			// compressed section five times or more: 350 ms per case against 2 ms without LZMA); the
+			// nested-edit stream below adds more edits below compressed sections, mostly ZLIB
+			maxEdits = 1
 		}
-		for k := 0; k < maxEdits && len(eds) > 0; k++ {
-			i := rr.Intn(len(eds))
-			e := eds[i]
-			eds = append(eds[:i], eds[i+1:]...)
-			emit("P", "p_edit", H(img), e.kind, N(uint64(rr.Intn(e.n))), H(e.val))
+		emitEditsM(rr, img, maxEdits, emit, len(img) <= 12000 && modelled && (!lzma || tier == "thorough" || it%16 == 7))
+	}
+	// edits inside nested volumes that force the nested volume to grow (plain nesting and nesting below
+	// compressed sections); the top-level volumes get room for it
+	nnest := 16
+	if tier == "thorough" {
+		nnest = 300
+	}
+	for it, done := 0, 0; done < nnest && it < 6*nnest; it++ {
+		rr := r.Fork(uint64(5000000 + it))
+		var img []byte
+		edits := 2
+		if it%2 == 0 {
+			// mostly ZLIB: the pure-Go LZMA encoder needs ~50 ms per section and every edit case encodes
+			// each compressed section six times or more
+			kinds := [][]int{{3}, {3}, {3}, {1}, {2}}[rr.Intn(5)]
+			if kinds[0] != 3 {
+				edits = 1
+			}
+			o := uefigen.COpts{Depth: rr.Pick(1, 1, 2), Kinds: kinds, Enc: realEnc, PlainNest: true}
+			reg, _, err := uefigen.GenCompRegion(rr.Fork(7), o)
+			if err != nil {
+				continue
+			}
+			img, _ = uefigen.EmitRegion(reg)
+		} else {
+			reg := uefigen.GenRegion(rr, uefigen.Opts{MaxDepth: rr.Pick(1, 2), Strings: true, Alignments: rr.Chance(1, 2)})
+			for _, e := range reg.Elems {
+				if e.Vol != nil {
+					e.Vol.FreeSpace += 600
+				}
+			}
+			img, _ = uefigen.EmitRegion(reg)
+		}
+		if len(img) == 0 || len(img) > 60000 {
+			continue
+		}
+		if emitNestedEdits(rr, img, edits, emit) > 0 {
+			done++
 		}
 	}
 }
@@ -1432,6 +1840,12 @@ func main() {
 	Register("guidparse", opGUIDParse)
 	Register("p_roundtrip", pRoundTrip)
 	Register("p_edit", pEdit)
+	Register("diredit", opDirEdit)
 	Register("p_paths", pPaths)
+	if os.Getenv("C07_STATS") != "" && len(os.Args) > 1 && os.Args[1] == "gen" {
+		h := hist{}
+		Main(func(r *Rng, tier string, emit Emit) { gen(r, tier, statsEmit(emit, h)); h.dump() })
+		return
+	}
 	Main(gen)
 }
